@@ -964,6 +964,61 @@ fn prefix_polygon(rng: &mut Rng, k: u32, shape: u32, ccw: bool) -> (Vec<Op>, u32
         let j = rng.below(u64::from(k)) as usize;
         pts[j] = (pts[j].0 * 0.125, pts[j].1 * 0.125);
     }
+    if shape == 4 {
+        // a random simple polygon: random grid points, crossings removed by 2-opt moves
+        // (reversing the sub-chain between two crossing segments), then made counter-clockwise
+        let cr = |o: (f64, f64), a: (f64, f64), b: (f64, f64)| (a.0 - o.0) * (b.1 - o.1) - (a.1 - o.1) * (b.0 - o.0);
+        let n = k as usize;
+        loop {
+            pts.clear();
+            while pts.len() < n {
+                let p = (rng.below(257) as f64 / 64.0 - 2.0, rng.below(257) as f64 / 64.0 - 2.0);
+                if !pts.contains(&p) {
+                    pts.push(p);
+                }
+            }
+            let mut ok = false;
+            for _ in 0..200 {
+                let mut crossing = None;
+                'find: for i in 0..n {
+                    for j in i + 2..n {
+                        if i == 0 && j == n - 1 {
+                            continue;
+                        }
+                        let (a, b, c, d) = (pts[i], pts[(i + 1) % n], pts[j], pts[(j + 1) % n]);
+                        if cr(a, b, c) * cr(a, b, d) < 0.0 && cr(c, d, a) * cr(c, d, b) < 0.0 {
+                            crossing = Some((i, j));
+                            break 'find;
+                        }
+                    }
+                }
+                match crossing {
+                    Some((i, j)) => pts[i + 1..=j].reverse(),
+                    None => {
+                        ok = true;
+                        break;
+                    }
+                }
+            }
+            // general position: no three consecutive collinear points, no vertex on another side
+            let mut general = ok;
+            for i in 0..n {
+                for j in 0..n {
+                    let (a, b) = (pts[j], pts[(j + 1) % n]);
+                    if i != j && i != (j + 1) % n && cr(a, b, pts[i]) == 0.0 {
+                        general = false;
+                    }
+                }
+            }
+            if general {
+                break;
+            }
+        }
+        let area2: f64 = (0..n).map(|i| pts[i].0 * pts[(i + 1) % n].1 - pts[(i + 1) % n].0 * pts[i].1).sum();
+        if area2 < 0.0 {
+            pts.reverse();
+        }
+    }
     if !ccw {
         pts.reverse();
     }
@@ -1534,8 +1589,8 @@ fn main() {
                 let anchors = if !polygon && rng.chance(1, 2) { 0x70 } else { 0 };
                 let mask = user | anchors;
                 let (mut prefix, used, poly) = if polygon {
-                    let k = 3 + rng.below(8) as u32;
-                    let shape = rng.below(4) as u32;
+                    let shape = rng.below(6).min(4) as u32;
+                    let k = if shape == 4 { 4 + rng.below(9) as u32 } else { 3 + rng.below(8) as u32 };
                     let ccw = rng.chance(3, 4);
                     let (p, u) = prefix_polygon(&mut rng, k, shape, ccw);
                     (p, u, Some((1u32, k)))
@@ -1595,7 +1650,7 @@ fn main() {
                 let mut prelinks: Vec<Op> = Vec::new();
                 for _ in 0..nops {
                     let fresh = m.n_darts() as u32;
-                    let alloc = Op::AddDarts(16);
+                    let alloc = Op::AddDarts(24);
                     exec(&mut m, &alloc);
                     tail.push(alloc);
                     let pl = if r2.chance(9, 10) { poly } else { None };
